@@ -546,3 +546,104 @@ def run_ident(facts, rep):
     else:
         rep.ok(R, cp + "/determinism", "no entropy/time/hash-map iteration reachable from compute_parms_id (%d function(s))" %
                len(reach), facts.loc(cp))
+
+
+def run_hashin(facts, rep):
+    """R-LADDER(hashin): the words hashed into a parms_id are stored at pairwise distinct positions of the hash input —
+    a store that lands on another field's slot makes the identifier independent of that field (collisions between
+    different parameter sets)."""
+    from r_slotmod import Sym, padd, pmul, pconst, patom, psubst, pshow, atoms_of
+    R = "R-LADDER(hashin)"
+    rep.rule(R, "every parameter word of the parms_id hash input has its own position: cursor stores are each followed by the "
+             "cursor's increment, explicit positions are pairwise distinct for every chain length >= 1")
+    p = "encryption_parameters::EncryptionParameters::compute_parms_id"
+    if not rep.anchor(R, p, p in facts.hir):
+        return 0
+    rep.fn(p)
+    body = facts.hir[p]
+    # the buffer handed to the hash
+    buf = None
+    for x in walk(body):
+        if x.get("k") == "Call" and (callee(x) or {}).get("name") == "hash" and x["args"]:
+            buf = root_local(x["args"][0])
+    if buf is None:
+        rep.unresolved(R, "buffer", "no call to hash::hash with a local buffer found", facts.loc(p))
+        return 0
+    stores = [x for x in walk(body) if x.get("k") == "Assign" and strip(x["lhs"]).get("k") == "Index" and
+              (root_local(strip(x["lhs"])["e"]) or (None,))[0] == buf[0]]
+    if not stores:
+        rep.ok(R, "positions", "the hash input is built by appends only (each word gets the next position)", facts.loc(p),
+               nontrivial=False)
+        return 1
+    sym = Sym(facts, body)
+    tree = Tree(body)
+    cursor_ok, explicit = [], []
+    for st in stores:
+        idx = strip(strip(st["lhs"])["i"])
+        lo = local_of(idx)
+        mutable = lo is not None and lo[0] not in sym.lets and lo[0] not in sym.loopvars
+        if mutable:
+            # cursor form: the next statement of the same block increments the cursor (or this is the last store)
+            blk = tree.enclosing(st, ("Block",))
+            stmts = blk.get("stmts", []) if blk else []
+            pos = [i for i, s in enumerate(stmts) if s.get("e") is st or any(y is st for y in walk(s))]
+            nxt = stmts[pos[0] + 1] if pos and pos[0] + 1 < len(stmts) else None
+            ne = strip(nxt.get("e")) if nxt is not None and nxt.get("k") in ("Semi", "Expr") else {}
+            inc = ne.get("k") == "AssignOp" and ne.get("op", "").startswith("+") and \
+                local_of(ne["lhs"]) is not None and local_of(ne["lhs"])[0] == lo[0]
+            later = [t for t in stores if (t.get("l", 0), t.get("c", 0)) > (st.get("l", 0), st.get("c", 0))]
+            cursor_ok.append((st, inc or not later))
+        else:
+            explicit.append((st, sym.poly(idx)))
+    bad = [st for st, ok in cursor_ok if not ok]
+    for st in bad:
+        rep.violation(R, "cursor", "a word is stored at the running cursor (line %s) without advancing it before the next "
+                      "store: the next word overwrites it and the identifier no longer depends on it" % st.get("l"),
+                      facts.loc(p, st))
+    if cursor_ok and not bad:
+        rep.ok(R, "cursor", "each of the %d cursor stores is followed by the cursor's increment" % len(cursor_ok), facts.loc(p))
+
+    def ge1(poly):
+        """poly >= 0 for every value of the loop variables in range and every length atom >= 1?"""
+        q = sym.bound(poly, False)
+        if q is None:
+            return False
+        for a in list(atoms_of(q)):
+            if a.startswith("len("):
+                q = psubst(q, a, padd(patom(a), pconst(1)))
+        return all(c >= 0 for c in q.values())
+
+    n_pairs = 0
+    for i in range(len(explicit)):
+        for j in range(i + 1, len(explicit)):
+            (sa, pa), (sb, pb) = explicit[i], explicit[j]
+            if not isinstance(pa, dict) or not isinstance(pb, dict):
+                continue
+            n_pairs += 1
+            d = padd(pa, pb, -1)
+            key = "positions/%d-%d" % (i, j)
+            dm1 = padd(d, pconst(1), -1)                       # d - 1 >= 0  <=>  d > 0
+            md = pmul(d, pconst(-1))
+            mdm1 = padd(md, pconst(1), -1)                     # -d - 1 >= 0 <=>  d < 0
+            if ge1(dm1) or ge1(mdm1):
+                rep.ok(R, key, "positions %s and %s never coincide" % (pshow(pa), pshow(pb)), facts.loc(p, sb), nontrivial=False)
+                continue
+            # collision: d == 0 has a solution inside the loop range
+            lvs = [a for a in atoms_of(d) if a in sym.ranges]
+            hit = not d
+            if len(lvs) == 1:
+                a = lvs[0]
+                coef = [c for m, c in d.items() if m == (a,)]
+                if len(coef) == 1 and abs(coef[0]) == 1 and all(a not in m or m == (a,) for m in d):
+                    rest = {m: c for m, c in d.items() if m != (a,)}
+                    sol = pmul(rest, pconst(-coef[0]))             # a = sol
+                    lo_, hi_ = sym.ranges[a]
+                    if ge1(padd(sol, lo_, -1)) and ge1(padd(padd(hi_, sol, -1), pconst(1), -1)):
+                        hit = True
+            if hit:
+                rep.violation(R, key, "two words of the parms_id hash input are stored at positions %s and %s, which coincide "
+                              "(for every chain length >= 1): one overwrites the other, so parameter sets differing only in "
+                              "the overwritten word share an identifier" % (pshow(pa), pshow(pb)), facts.loc(p, sb))
+            else:
+                rep.unresolved(R, key, "positions %s and %s not provably distinct" % (pshow(pa), pshow(pb)), facts.loc(p, sb))
+    return 1 + n_pairs
